@@ -85,11 +85,16 @@ type Sim struct {
 	// HeldNbr: the neighbour whose advertisement the held tasks were spawned for (set by the harness
 	// right after HoldBefore for an exchange with that neighbour; -1: unknown, the canonical form
 	// then lists the stored advertisement of every neighbour entry of a router with held tasks)
-	HeldNbr   int
-	holdSite  string
-	holdCut   bool
-	Problems  []string // harness-level anomalies that make the execution unusable (CHECK-ERROR material)
-	AdvSeen   []string // advertisement entries with Cost >= infinity seen on the wire or in Rib.Advert()
+	HeldNbr  int
+	holdSite string
+	holdCut  bool
+	Problems []string // harness-level anomalies that make the execution unusable (CHECK-ERROR material)
+	AdvSeen  []string // advertisement entries with Cost >= infinity seen on the wire or in Rib.Advert()
+	// AdvTorn: advertisement Data whose content is the router's advertisement neither as the handler
+	// took it nor as it is when the Data leaves (SplitReply)
+	AdvTorn []string
+	// advPin: rendering of stored advertisements whose memory the harness has overwritten (ReuseWire)
+	advPin    map[*tlv.Advertisement][2]string
 	TasksRun  int
 	Exchanges int
 }
@@ -110,6 +115,14 @@ type Options struct {
 	// Nested makes every router name an extension of the previous one: r0 = <prefix>/r0,
 	// r1 = <prefix>/r0/x1, r2 = <prefix>/r0/x1/x2, ... (names in a prefix relation).
 	Nested bool
+	// SplitReply: ExchangeQueued / DeliverFlight cut the neighbour's advertDataOnInterest in two where
+	// it releases dv.mutex: the advertisement is TAKEN when the fetch arrives and ENCODED, signed and
+	// sent only when the Data is delivered, whatever the router did in between (see split.go).
+	SplitReply bool
+	// ReuseWire: the memory of every advertisement Data is overwritten once the requester's handler
+	// and every task it spawned have run (a receive buffer that is used again): the router's tables
+	// must own what they keep (see split.go for what the unchanged code legitimately still refers to).
+	ReuseWire bool
 }
 
 // NewSim builds N fresh routers with default options.
@@ -421,6 +434,9 @@ func (s *Sim) deliverData(x *Expressed, wire enc.Wire) {
 	x.Cb(ndn.ExpressCallbackArgs{Result: ndn.InterestResultData, Data: data, RawData: wire, SigCovered: sigCov})
 	vsched.SetContext(old)
 	s.RunTasks()
+	if s.Opt.ReuseWire && x.Kind == KAdvData && len(s.Held) == 0 {
+		s.reuseWire(x, wire)
+	}
 }
 
 func (s *Sim) deliverFailure(x *Expressed, res ndn.InterestResult) {
@@ -555,6 +571,9 @@ type FlightData struct {
 	X    *Expressed
 	Wire enc.Wire
 	Adv  string // canonical content
+	// SplitReply: the advertisement object the suspended handler holds, and the process it belongs to
+	taken *tlv.Advertisement
+	proc  *dv.Router
 }
 
 // ExchangeQueued is Exchange up to the point where the neighbour has answered: router i hears j's
@@ -584,7 +603,14 @@ func (s *Sim) ExchangeQueued(i, j int) {
 				adv = advertStr(s, a, os.Getenv("VERIF_DV_FLIGHTRAW") == "")
 			}
 		}
-		s.InFlight = append(s.InFlight, &FlightData{x, reply, adv})
+		fd := &FlightData{X: x, Wire: reply, Adv: adv}
+		if s.Opt.SplitReply && SplitReplyApplies() {
+			// the handler whose reply is in flight has only TAKEN its advertisement so far (the reply
+			// computed above by the whole handler is what it sends if nothing comes in between)
+			fd.proc = s.Nodes[j].DV
+			fd.taken = fd.proc.VerifAdvertTake()
+		}
+		s.InFlight = append(s.InFlight, fd)
 	}
 }
 
@@ -607,7 +633,11 @@ func (s *Sim) DeliverFlight(f *FlightData) {
 			break
 		}
 	}
-	s.deliverData(f.X, f.Wire)
+	wire := f.Wire
+	if f.taken != nil && s.Nodes[f.X.Target].Up && s.Nodes[f.X.Target].DV == f.proc {
+		wire = s.finishReply(f)
+	}
+	s.deliverData(f.X, wire)
 }
 
 // DeliverAdv delivers the parked advertisement fetch x (expressed by x.From for x.Target) to the
